@@ -845,3 +845,74 @@ def r13_slot_stores(res, facts, own=None, touched=None, rel=None):
     if n < 3:
         raise AnalysisBroken('C19-R13: only %d slot stores into owning containers found' % n)
     return r
+
+
+# ----------------------------------------------------------------------------------------------- R14: what is erased is what was read
+def r14_move_within(res, facts, own=None, touched=None, rel=None):
+    """Moving an element inside an owning container - read the pointer through an iterator, erase, insert it again elsewhere - keeps the books only if the node erased is the
+    node that was read.  Erasing through another iterator (or through reverse_iterator::base(), which designates the element AFTER the one the reverse iterator refers to)
+    removes a neighbour: that element is never released, and the moved one is in the container twice and is released twice."""
+    r = res.rule('C19-R14', 'an element moved inside an owning pointer container (pointer read through an iterator, erase, re-insert): the iterator handed to erase is the iterator the '
+                 'pointer was read through - not another one, not reverse_iterator::base() of it', floor=1)
+    if own is None:
+        rel = Releasers(facts)
+        own, touched = discover(facts, rel)
+    n = 0
+    seen = set()
+    for k, a, flow in touched:
+        fn = strip_t(short(facts.name[k]))
+        # locals that hold a pointer read through an iterator: P = *X
+        read_through = {}
+        for x in walk(a['body']):
+            if x.get('k') == 'Decl':
+                for v in x.get('vars', []):
+                    init = strip_casts(v.get('init')) if v.get('init') is not None else None
+                    src = None
+                    if isinstance(init, dict) and init.get('k') == 'Un' and init.get('op') == '*':
+                        src = strip_casts(init.get('e'))
+                    elif isinstance(init, dict) and init.get('k') == 'OpCall' and init.get('op') == '*' and len(init.get('args', [])) == 1:
+                        src = strip_casts(init['args'][0])
+                    if isinstance(src, dict) and src.get('k') == 'Ref' and src.get('d') == 'local':
+                        read_through[v['id']] = (src['id'], src.get('n'), v.get('n'))
+        if not read_through:
+            continue
+        for c in calls(a['body']):
+            if c.get('k') != 'MCall' or cname(c) != 'erase' or len(c.get('args', [])) != 1:
+                continue
+            o = strip_casts(c.get('obj'))
+            if not (isinstance(o, dict) and o.get('k') == 'Member' and is_ptr_cont(o.get('ty')) and field_of(o) in own):
+                continue
+            f = field_of(o)
+            # is a value read through an iterator re-inserted into the same container after this erase?
+            moved = None
+            for c2 in calls(a['body']):
+                if c2.get('k') == 'MCall' and cname(c2) in ('push_front', 'push_back', 'insert') and (c2.get('l') or 0) >= (c.get('l') or 0):
+                    o2 = strip_casts(c2.get('obj'))
+                    if isinstance(o2, dict) and o2.get('k') == 'Member' and field_of(o2) == f and c2.get('args'):
+                        rr = root_ref(c2['args'][-1])
+                        if rr is not None and rr.get('d') == 'local' and rr.get('id') in read_through and (moved is None or (c2.get('l') or 0) < moved[3]):
+                            moved = read_through[rr['id']] + ((c2.get('l') or 0),)
+            if moved is None:
+                continue
+            key = (fn, f, c.get('l'))
+            if key in seen:
+                continue
+            seen.add(key)
+            n += 1
+            arg = strip_casts(c['args'][0])
+            while isinstance(arg, dict) and arg.get('k') == 'Ctor' and len(arg.get('args', [])) == 1:
+                arg = strip_casts(arg['args'][0])        # the iterator passed by value
+            site = '%s: %s moved within %s' % (fn, moved[2], f.split('::')[-1])
+            if isinstance(arg, dict) and arg.get('k') == 'Ref' and arg.get('d') == 'local' and arg.get('id') == moved[0]:
+                r.ok(site, 'erase(%s), the iterator %s was read through' % (arg.get('n'), moved[2]))
+            elif isinstance(arg, dict) and arg.get('k') == 'MCall' and arg.get('n') == 'base':
+                r.violation('%s: erase through reverse_iterator::base()' % fn,
+                            '%s was read through the reverse iterator %s, and erase(%s) removes the element AFTER it (base() of a reverse iterator designates the next element): a neighbour '
+                            'leaves the container without being released, %s is in it twice' % (moved[2], moved[1], pp(arg)[:40], moved[2]), common.file_line(a, c))
+            else:
+                r.violation('%s: the element erased is not the element read' % fn,
+                            '%s was read through %s, erase is given %s: another element leaves the container without being released, %s is in it twice' %
+                            (moved[2], moved[1], pp(arg)[:40], moved[2]), common.file_line(a, c))
+    if n < 1:
+        raise AnalysisBroken('C19-R14: no move within an owning container found (ReusableArenaAllocator::destroyObject has two)')
+    return r
